@@ -440,3 +440,23 @@ Proof.
 Qed.
 
 (* Print Assumptions C04_parse.  Print Assumptions C04_parse_from.  Print Assumptions C04_parse_cmd. *)
+
+(** ** PROPOSED notes/C04-fix-5.patch: the attached spelling [<file] *)
+Lemma flat_map_split_id : forall l, Forall (fun t => split_lt t = [t]) l -> flat_map split_lt l = l.
+Proof.
+  induction l as [|t r IH]; intros H; [reflexivity|]. inversion H; subst. cbn [flat_map]. rewrite H2, IH; auto.
+Qed.
+
+Theorem C04_parse_from_attached : forall pre post c r,
+  c <> 60%N ->
+  no_from pre -> no_from post ->
+  Forall (fun t => split_lt t = [t]) pre -> Forall (fun t => split_lt t = [t]) post ->
+  from_tokens_att (pre ++ [([], 60%N :: c :: r)] ++ post)
+  = set_from (Some (s_lt, c :: r)) (from_tokens (pre ++ post)).
+Proof.
+  intros pre post c r Hc Hpre Hpost Fpre Fpost. unfold from_tokens_att.
+  rewrite flat_map_app. cbn [app flat_map]. rewrite (flat_map_split_id pre Fpre), (flat_map_split_id post Fpost).
+  unfold split_lt at 1. cbn [fst snd].
+  rewrite N.eqb_refl. apply N.eqb_neq in Hc. rewrite Hc. cbn [negb andb app].
+  apply (C04_parse_from_lt pre post [] (c :: r) Hpre Hpost).
+Qed.
